@@ -216,6 +216,7 @@ func c13GenHistory(rng *RNG, maxLen int) []c13Event {
 	es := []c13Event{{Kind: "np", Arg: c13RandCode(rng, 3)}}
 	pool := 3 + rng.Intn(5)
 	npol := 1
+	codes := []string{es[0].Arg} // codes of the policies so far: reverts, repeats and manual syncs are made frequent
 	for len(es) < n {
 		e := c13Event{}
 		if rng.Chance(25) {
@@ -224,6 +225,13 @@ func c13GenHistory(rng *RNG, maxLen int) []c13Event {
 		switch k := rng.Intn(100); {
 		case k < 18:
 			e.Kind, e.Arg = "np", c13RandCode(rng, pool)
+			switch r := rng.Intn(100); {
+			case r < 25:
+				e.Arg = codes[len(codes)-1] // new policy, same code for this device
+			case r < 45:
+				e.Arg = Pick(rng, codes) // revert to an earlier code
+			}
+			codes = append(codes, e.Arg)
 			npol++
 		case k < 38:
 			e.Kind = "ok"
@@ -235,6 +243,9 @@ func c13GenHistory(rng *RNG, maxLen int) []c13Event {
 			e.Kind = "cmperr"
 		case k < 84:
 			e.Kind, e.Arg = "drift", c13RandCode(rng, pool)
+			if rng.Chance(50) {
+				e.Arg = codes[len(codes)-1] // manual change that makes the device equal to the current policy
+			}
 		case k < 89:
 			e.Kind, e.Arg = "bz", strconv.Itoa(1+rng.Intn(npol))
 		case k < 95:
@@ -372,6 +383,11 @@ func runC13(ctx *Ctx) *Result {
 
 	if ctx.Replay != "" {
 		var es []c13Event
+		var gc glueCase
+		if err := ReadReplay(ctx.Replay, &gc); err == nil && gc.Action != "" {
+			runGlue(ctx, res, drv, tmp, bin, &gc)
+			return res
+		}
 		if err := ReadReplay(ctx.Replay, &es); err != nil {
 			fmt.Fprintln(os.Stderr, err)
 			os.Exit(2)
@@ -385,12 +401,18 @@ func runC13(ctx *Ctx) *Result {
 			{Kind: "np", Arg: "1,0,0,0,0,0"}, {Kind: "fail"}},
 		{{Kind: "np", Arg: "1,0,0,0,0,0"}, {Kind: "ok"}, {Kind: "np", Arg: "0,0,0,0,0,0"}, {Kind: "rm", Arg: "1"}},
 		{{Kind: "np", Arg: "1,0,0,0,0,0"}, {Kind: "ok"}, {Kind: "fail"}},
+		// two UPTODATE compares across a policy change and a manual change, then a revert / a removal
+		{{Kind: "np", Arg: "1,0,0,0,0,0"}, {Kind: "drift", Arg: "1,0,0,0,0,0"}, {Kind: "cmp"}, {Kind: "np", Arg: "2,0,0,0,0,0"},
+			{Kind: "drift", Arg: "2,0,0,0,0,0"}, {Kind: "cmp"}, {Kind: "np", Arg: "1,0,0,0,0,0"}},
+		{{Kind: "np", Arg: "1,0,0,0,0,0"}, {Kind: "drift", Arg: "1,0,0,0,0,0"}, {Kind: "cmp"}, {Kind: "np", Arg: "1,0,0,0,0,0"},
+			{Kind: "cmp"}, {Kind: "rm", Arg: "1"}},
 		{{Kind: "np", Arg: "1,0,0,0,0,0"}, {Kind: "cmp"}, {Kind: "ok"}, {Kind: "drift", Arg: "2,0,0,0,0,0"}, {Kind: "cmp"}, {Kind: "cmp"},
 			{Kind: "ok"}, {Kind: "cmp"}, {Kind: "np", Arg: "1,0,0,0,0,0"}, {Kind: "bz", Arg: "1"}},
 	}
 	for _, es := range corpus {
 		runHistory(es, ctx.Rng.Fork())
 	}
+	runGlue(ctx, res, drv, tmp, bin, nil)
 	n := ctx.N(500, 6000)
 	maxLen := ctx.N(12, 20)
 	for i := 0; i < n; i++ {
